@@ -155,9 +155,11 @@ func (a *recAuth) Verify(ctx context.Context, msg []byte) error {
 // ---- one Execute call
 
 type sigCfg struct {
-	Workers   int  `json:"workers"` // 0 = workers.NewSerial()
-	Batch     bool `json:"batch"`   // auth.DefaultEngines() (ed25519 batch verifier) vs no engines: one-by-one
-	Decorated bool `json:"decorated"`
+	Workers    int  `json:"workers"` // 0 = workers.NewSerial()
+	Batch      bool `json:"batch"`   // auth.DefaultEngines() (ed25519 batch verifier) vs no engines: one-by-one
+	Decorated  bool `json:"decorated"`
+	Gated      bool `json:"gated"`      // the batch worker is parked on its first item until the producer met the full backlog
+	Concurrent bool `json:"concurrent"` // executed while another block is verified on the same workers pool
 }
 
 type sigOut struct {
@@ -166,18 +168,19 @@ type sigOut struct {
 }
 
 type sigLine struct {
-	Ev       string   `json:"ev"`
-	Sc       int      `json:"sc"`
-	Rep      int      `json:"rep"`
-	Kinds    []string `json:"kinds"`
-	Signers  []string `json:"signers"`
-	How      []string `json:"how"`      // per position: valid | wrongmsg | flip | wrongsigner
-	Intended []bool   `json:"intended"` // the driver meant the signature to be valid
-	Valid    []bool   `json:"valid"`    // one-by-one reference: tx.Auth.Verify(tx.UnsignedBytes()) == nil
-	Cfg      sigCfg   `json:"cfg"`
-	Out      sigOut   `json:"out"`
-	Created  [][]int  `json:"created"`
-	Ran      [][]int  `json:"ran"`
+	Ev        string   `json:"ev"`
+	Sc        int      `json:"sc"`
+	Rep       int      `json:"rep"`
+	Kinds     []string `json:"kinds"`
+	Signers   []string `json:"signers"`
+	How       []string `json:"how"`      // per position: valid | wrongmsg | flip | wrongsigner
+	Intended  []bool   `json:"intended"` // the driver meant the signature to be valid
+	Valid     []bool   `json:"valid"`    // one-by-one reference: tx.Auth.Verify(tx.UnsignedBytes()) == nil
+	Cfg       sigCfg   `json:"cfg"`
+	Out       sigOut   `json:"out"`
+	Created   [][]int  `json:"created"`
+	Ran       [][]int  `json:"ran"`
+	Delivered int      `json:"delivered"` // gated runs: items that reached the batch verifier
 }
 
 func sigErrClass(err error) string {
